@@ -10,7 +10,7 @@ import (
 
 func init() {
 	registerProperty(&Property{
-		ID: "C10",
+		ID:          "C10",
 		Explanation: "Decides structural necessary conditions of the external sort / merge / reduce-merge: (R1) in SortReader every run is sorted (sort.Sort on the very frame) immediately before it is spilled; (R2) once the spiller exists every exit of SortReader passes its Cleanup; (R3) no error of an input read, fill, spill or reader construction in sortio, cogroup.go and reduce.go is dropped or overwritten (error-value flow), and the end-of-stream sentinel is manufactured only at the sanctioned exhaustion sites (FrameBuffer.Fill: Len == 0 && err == nil; merge/reduce/cogroup: nothing produced / heap empty); (R4) after the cursor of the heap's top buffer moves, every path repairs the heap (Fix/Remove for merge and cogroup; push-back unless the refill hit end-of-stream for reduce) before the top is consulted again; (R5) the readers test their sticky error first and store every error they return; (R6) the reduce reader stores the combined value into the output row before any buffer of the group is refilled. Not decided: sortedness and multiset equality of the output (value-level).",
 		Rules: []Rule{
 			{ID: "C10-R1", Doc: "sort precedes spill", Run: c10r1},
